@@ -1,6 +1,13 @@
-# source me: sets up the offline Go toolchain used by every check
+# source me: sets up the offline Go toolchain used by every check.
+# go1.26.8 is preferred (go1.25.0's runtime has a testing/synctest WaitGroup defect that makes bubbles hang);
+# fallback: go1.25.0 from the module cache.
 export GOTOOLCHAIN=local GOFLAGS=-mod=mod GOPROXY=off GOSUMDB=off
-_mc=$(GOTOOLCHAIN=local go env GOMODCACHE 2>/dev/null || echo /root/go/pkg/mod)
-if [ -x "$_mc/golang.org/toolchain@v0.0.1-go1.25.0.linux-amd64/bin/go" ]; then
-  export PATH="$_mc/golang.org/toolchain@v0.0.1-go1.25.0.linux-amd64/bin:$PATH"
+unset GOROOT
+if [ -x /opt/veriftools/go1.26.8/bin/go ]; then
+  export PATH="/opt/veriftools/go1.26.8/bin:$PATH"
+else
+  _mc=$(GOTOOLCHAIN=local go env GOMODCACHE 2>/dev/null || echo /root/go/pkg/mod)
+  if [ -x "$_mc/golang.org/toolchain@v0.0.1-go1.25.0.linux-amd64/bin/go" ]; then
+    export PATH="$_mc/golang.org/toolchain@v0.0.1-go1.25.0.linux-amd64/bin:$PATH"
+  fi
 fi
